@@ -500,3 +500,133 @@ func perElementMap(in map[string][]string) map[string]int {
 		check("derivedKeyStores/"+name, got == want, "%d reported (want %d)", got, want)
 	}
 }
+
+// selftestRound6: the generic rules of round 6 that have no instance in the module.
+func selftestRound6(check func(name string, ok bool, format string, args ...any)) {
+	fns, err := ssaSnippet(`package snippet
+
+import "sync"
+
+func filtersInPlace(paths []string, keep func(string) bool) []string {
+	out := paths[:0]
+	for _, p := range paths {
+		if keep(p) {
+			out = append(out, p)
+		}
+	}
+	return out
+}
+func filtersIntoNew(paths []string, keep func(string) bool) []string {
+	out := make([]string, 0, len(paths))
+	for _, p := range paths {
+		if keep(p) {
+			out = append(out, p)
+		}
+	}
+	return out
+}
+func filtersOwn(n int, keep func(int) bool) []int {
+	all := make([]int, n)
+	out := all[:0]
+	for i := range all {
+		if keep(i) {
+			out = append(out, i)
+		}
+	}
+	return out
+}
+
+func onceCompleted(compare func() error) func() error {
+	var lock sync.Mutex
+	var completed bool
+	return func() error {
+		lock.Lock()
+		defer lock.Unlock()
+		if completed {
+			return nil
+		}
+		err := compare()
+		completed = true
+		return err
+	}
+}
+func onceRemembered(compare func() error) func() error {
+	var lock sync.Mutex
+	var completed bool
+	var result error
+	return func() error {
+		lock.Lock()
+		defer lock.Unlock()
+		if completed {
+			return result
+		}
+		result = compare()
+		completed = true
+		return result
+	}
+}
+
+func aliases(in map[string]map[string]struct{}, repl map[string][]string) map[string]map[string]struct{} {
+	out := map[string]map[string]struct{}{}
+	add := func(id string, paths map[string]struct{}) {
+		set, ok := out[id]
+		if !ok {
+			out[id] = paths
+			return
+		}
+		for p := range paths {
+			set[p] = struct{}{}
+		}
+	}
+	for id, paths := range in {
+		for _, r := range repl[id] {
+			add(r, paths)
+		}
+	}
+	return out
+}
+func copies(in map[string]map[string]struct{}, repl map[string][]string) map[string]map[string]struct{} {
+	out := map[string]map[string]struct{}{}
+	add := func(id string, paths map[string]struct{}) {
+		set, ok := out[id]
+		if !ok {
+			set = map[string]struct{}{}
+			out[id] = set
+		}
+		for p := range paths {
+			set[p] = struct{}{}
+		}
+	}
+	for id, paths := range in {
+		for _, r := range repl[id] {
+			add(r, paths)
+		}
+	}
+	return out
+}
+`)
+	if err != nil {
+		check("ssa snippet round6", false, "%v", err)
+		return
+	}
+	for name, want := range map[string]int{"filtersInPlace": 1, "filtersIntoNew": 0, "filtersOwn": 0} {
+		got := len(inPlaceFilterOfParam(fns[name]))
+		check("inPlaceFilterOfParam/"+name, got == want, "%d reported (want %d)", got, want)
+	}
+	for name, want := range map[string]bool{"onceCompleted": true, "onceRemembered": false} {
+		got := false
+		for _, f := range allSSAFuncs(fns[name]) {
+			if memoDropsResult(f) {
+				got = true
+			}
+		}
+		check("memoDropsResult/"+name, got == want, "reported: %v (want %v)", got, want)
+	}
+	for name, want := range map[string]int{"aliases": 1, "copies": 0} {
+		got := 0
+		for _, f := range allSSAFuncs(fns[name]) {
+			got += len(mapAliasMutated(f))
+		}
+		check("mapAliasMutated/"+name, got == want, "%d reported (want %d)", got, want)
+	}
+}
